@@ -112,6 +112,41 @@ impl S3OcflStore {
         })
     }
 
+    /// Returns an error if the object root is not a plain relative path below the repository
+    /// prefix, or if it lies inside another object
+    fn ensure_valid_object_root(&self, object_id: &str, object_root: &str) -> Result<()> {
+        let escapes = object_root.is_empty()
+            || object_root.starts_with('/')
+            || object_root
+                .split('/')
+                .any(|part| part.is_empty() || part == "." || part == "..");
+
+        if escapes {
+            return Err(RocflError::IllegalState(format!(
+                "Object {} maps to the object root '{}', which is not a path inside the storage root",
+                object_id, object_root
+            )));
+        }
+
+        let mut current = String::new();
+        let mut parts = object_root.split('/').peekable();
+
+        while let Some(part) = parts.next() {
+            if parts.peek().is_none() {
+                break;
+            }
+            current = join(&current, part);
+            if is_object_dir(&self.s3_client.list_dir(&current)?.objects) {
+                return Err(RocflError::IllegalState(format!(
+                    "Object {} maps to {}, which is not possible because {} is the root of another object",
+                    object_id, object_root, current
+                )));
+            }
+        }
+
+        Ok(())
+    }
+
     /// This method first attempts to locate the path to the object using the storage layout.
     /// If it is not able to, then it scans the repository looking for the object.
     fn lookup_or_find_object_root_path(&self, object_id: &str) -> Result<String> {
@@ -555,6 +590,8 @@ impl OcflStore for S3OcflStore {
             }
         };
 
+        self.ensure_valid_object_root(&inventory.id, &object_root)?;
+
         if !self.s3_client.list_dir(&object_root)?.is_empty() {
             return Err(RocflError::IllegalState(format!(
                 "Cannot create object {} because there are existing files at {}",
@@ -645,6 +682,8 @@ impl OcflStore for S3OcflStore {
             Ok(object_root) => object_root,
         };
 
+        self.ensure_valid_object_root(object_id, &object_root)?;
+
         // Two ids can map to the same path, e.g. under the omit-prefix layouts. Only the object
         // that was asked for may be removed.
         if let Ok(Some(inventory)) = self.parse_inventory(&object_root) {
@@ -663,7 +702,17 @@ impl OcflStore for S3OcflStore {
 
         let mut failed = false;
 
-        for file in self.s3_client.list_objects(&object_root)? {
+        let files = self.s3_client.list_objects(&object_root)?;
+
+        if !is_object_dir(&self.s3_client.list_dir(&object_root)?.objects) && is_object_dir(&files) {
+            // The ID maps to a prefix that is not an object but contains other objects
+            return Err(RocflError::IllegalState(format!(
+                "Cannot purge object {} because {} is not the root of an object and contains other objects",
+                object_id, object_root
+            )));
+        }
+
+        for file in files {
             if self.is_closed() {
                 error!("Terminating purge of object {} at {}. This object will need to be cleaned up manually.",
                        object_id, object_root);
